@@ -2,6 +2,7 @@
 #[path = "../../harness/src/util.rs"]
 mod util;
 mod aad;
+mod abig;
 mod apl;
 mod arf;
 mod asrw;
@@ -15,6 +16,8 @@ static GLOBAL: Counting = Counting;
 fn arg(args: &[String], name: &str, default: &str) -> String {
     args.iter().position(|a| a == name).and_then(|i| args.get(i + 1).cloned()).unwrap_or_else(|| default.to_string())
 }
+
+include!(concat!(env!("OUT_DIR"), "/gen_sizes.rs"));
 
 fn main() {
     std::panic::set_hook(Box::new(|_| {}));
@@ -30,6 +33,12 @@ fn main() {
         "arf" | "arfc" => arf::run(&mode, thorough, seed, &mut w),
         "at" => at::run(thorough, seed, &mut w),
         "apl" => apl::run(thorough, seed, &mut w),
+        "abig" => {
+            let mut bn = 0usize;
+            macro_rules! big_run { ($n:expr, $w:expr, $tot:expr) => { $tot += abig::run_size::<$n>($w); } }
+            with_big_sizes!(big_run, &mut w, bn);
+            eprintln!("STAT abig scenarios={} sizes={:?}", bn, BIG_SIZES);
+        }
         "replay" => {
             let stdin = std::io::stdin();
             let mut line = String::new();
